@@ -322,6 +322,8 @@ pub enum RustTypeParseError {
     UnexpectedParameterizedTuple,
     #[error("Could not parse numeric literal")]
     NumericLiteral(syn::parse::Error),
+    #[error("`{0}` is missing its generic type arguments")]
+    MissingGenericArguments(String),
 }
 
 impl FromStr for RustType {
@@ -361,18 +363,20 @@ impl TryFrom<&syn::Type> for RustType {
                     }
                     _ => Vec::default(),
                 };
+                // `Vec`, `Option<>`, `HashMap<K>`, `Box<'a>` .. : too few type arguments
+                let missing = || RustTypeParseError::MissingGenericArguments(id.clone());
                 match id.as_str() {
                     "Vec" => Self::Special(SpecialRustType::Vec(
-                        parameters.into_iter().next().unwrap().into(),
+                        parameters.into_iter().next().ok_or_else(missing)?.into(),
                     )),
                     "Option" => Self::Special(SpecialRustType::Option(
-                        parameters.into_iter().next().unwrap().into(),
+                        parameters.into_iter().next().ok_or_else(missing)?.into(),
                     )),
                     "HashMap" => {
                         let mut params = parameters.into_iter();
                         Self::Special(SpecialRustType::HashMap(
-                            params.next().unwrap().into(),
-                            params.next().unwrap().into(),
+                            params.next().ok_or_else(missing)?.into(),
+                            params.next().ok_or_else(missing)?.into(),
                         ))
                     }
                     "OffsetDateTime" => Self::Special(SpecialRustType::DateTime),
@@ -380,7 +384,9 @@ impl TryFrom<&syn::Type> for RustType {
                     // These smart pointers can be treated as their inner type since serde can handle it
                     // See impls of serde::Deserialize
                     "Box" | "Weak" | "Arc" | "Rc" | "Cow" | "ArcWeak" | "RcWeak" | "Cell"
-                    | "Mutex" | "RefCell" | "RwLock" => parameters.into_iter().next().unwrap(),
+                    | "Mutex" | "RefCell" | "RwLock" => {
+                        parameters.into_iter().next().ok_or_else(missing)?
+                    }
                     "bool" => Self::Special(SpecialRustType::Bool),
                     "char" => Self::Special(SpecialRustType::Char),
                     "u8" => Self::Special(SpecialRustType::U8),
